@@ -242,6 +242,40 @@ def st_rename_case(draw):
             "mseed": draw(st.integers(0, 2**31))}
 
 
+@st.composite
+def st_rename_big_case(draw):
+    """one term with 7-10 contracted indices of ONE space (more than the
+    plain alphabet of that space holds next to the targets) and targets
+    carrying numbered names: the lowest available names reach the numbered
+    range"""
+    space = draw(st.sampled_from(["occ", "virt", "general"]))
+    alpha = {"occ": "ijklmno", "virt": "abcdefgh",
+             "general": "pqrstuvw"}[space]
+    pool = list(alpha) + [x + "2" for x in alpha[:4]]
+    n = draw(st.integers(7, 10))
+    contracted = list(draw(st.permutations(pool)))[:n]
+    contracted = [x for x in contracted]
+    targets = list(draw(st.permutations(
+        [alpha[0] + "1", alpha[1] + "1", alpha[2] + "1"])))[
+            :draw(st.integers(1, 2))]
+    other = "a" if space != "virt" else "i"
+    if draw(st.booleans()):
+        targets.append(other)
+    slots = contracted * 2 + targets
+    slots = list(draw(st.permutations(slots)))
+    objs = []
+    names = ["x", "y", "w", "x", "y", "w", "x"]
+    while slots:
+        k = min(len(slots), draw(st.integers(3, 5)))
+        chunk, slots = slots[:k], slots[k:]
+        objs.append({"k": "N", "name": names[len(objs) % len(names)], "u": chunk, "l": [],
+                     "bk": 0, "exp": 1})
+    term = {"pref": [1, 1], "sqrt": 0, "syms": [], "objs": objs}
+    return {"sub": "rename", "terms": [term], "targets": sorted(targets),
+            "explicit": draw(st.booleans()), "spin": False, "generic": False,
+            "pre": [], "mseed": draw(st.integers(0, 2**31))}
+
+
 def check_renaming(r, case, before, after, targets, generic, seen_before,
                    tag=""):
     """before/after: sympy product terms"""
@@ -482,7 +516,8 @@ def run_case(case):
 
 def strategy(tier):
     return st.one_of(st_map_case(), st_perm_case(), st_rename_case(),
-                     st_history_case())
+                     st_history_case(), st_rename_case(),
+                     st_rename_big_case())
 
 
 def run_shard(col, shard, nshards, seed, tier):
